@@ -51,6 +51,11 @@ class ContinueEx(Exception):
     pass
 
 
+class LoopIterEnd(Exception):
+    """end of the arbitrary iteration of a loop verified by invariant: the path stops here (its
+    obligations — invariant preserved, loop frame — have been recorded)"""
+
+
 class Infeasible(Exception):
     """Current path's condition became unsatisfiable (pruned)."""
 
@@ -554,6 +559,8 @@ class Interp:
                 out = ('continue',)
             except PyRaise as e:
                 out = ('raise', e)
+            except LoopIterEnd:
+                out = ('loopend',)
             except Infeasible:
                 continue
             results.append((sub, nfr, out))
@@ -711,6 +718,21 @@ class Interp:
             return SV('val', e, T=T)
         raise Unsupported(f'unbox type {T}')
 
+    def ref_bound(self, e):
+        """Upper bound of a reference-valued Val expression.  A value read directly from a *pre-state* array
+        (a constant named `...@0`, never stored into) is a pre-state value: if it is a reference, the object
+        existed before the call.  (For a fresh index the pre-state array holds no meaningful value; the engine
+        already assumes that attributes are assigned before they are read.)"""
+        def pre_array(a):
+            return z3.is_const(a) and a.decl().kind() == z3.Z3_OP_UNINTERPRETED and a.decl().name().endswith('@0')
+        if z3.is_app(e) and e.decl().kind() == z3.Z3_OP_SELECT:
+            a = e.arg(0)
+            if pre_array(a):
+                return self.st.alloc0
+            if z3.is_app(a) and a.decl().kind() == z3.Z3_OP_SELECT and pre_array(a.arg(0)):
+                return self.st.alloc0
+        return self.st.alloc0 + self.st.nalloc
+
     def conforms(self, e, T):
         """Shallow conformance of a Val expression to a declared type."""
         t0 = T[0]
@@ -730,13 +752,13 @@ class Interp:
             return Val.is_c(e)
         if t0 == 'obj':
             return z3.And(Val.is_r(e), cls_of(Val.rv(e)) == self.reg.cid(T[1]),
-                          Val.rv(e) < self.st.alloc0 + self.st.nalloc)
+                          Val.rv(e) < self.ref_bound(e))
         if t0 == 'list':
             return z3.And(Val.is_r(e), cls_of(Val.rv(e)) == self.reg.cid('list'),
-                          Val.rv(e) < self.st.alloc0 + self.st.nalloc)
+                          Val.rv(e) < self.ref_bound(e))
         if t0 == 'dict':
             return z3.And(Val.is_r(e), cls_of(Val.rv(e)) == self.reg.cid('dict'),
-                          Val.rv(e) < self.st.alloc0 + self.st.nalloc)
+                          Val.rv(e) < self.ref_bound(e))
         if t0 == 'union':
             return z3.Or(*[self.conforms(e, a) for a in T[1]])
         if t0 == 'tuple':
@@ -1878,6 +1900,8 @@ class Interp:
                 if self.decide(c.e == Val.none):
                     raise PyRaise(TypeError, (), '`in` None')
                 return self.contains(self.unbox(c.e, alts[0]), x)
+            if any(a[0] == 'str' for a in alts) and self.decide(Val.is_s(c.e)):
+                return self.contains(mk_str(Val.sv(c.e)), x)
         if c.k == 'ref':
             pc = self.reg.pyclass(c.cls)
             f = inspect.getattr_static(pc, '__contains__', None) if pc else None
@@ -2190,8 +2214,8 @@ class Interp:
                     T = sg[2]
                     return self.unbox(sg[3][i], T[1] if T and T[0] == 'list' else None)
                 # first element of a non-empty segment list
-                i = self.concrete_int(idx)
-                if i == 0 and segs and segs[0][0] == 'item':
+                ci = z3.simplify(self.as_int(idx))
+                if z3.is_int_value(ci) and ci.as_long() == 0 and segs and segs[0][0] == 'item':
                     return segs[0][1]
                 self.lower_list(obj.py)
             obj = SV('ref', obj.py.href, cls='list', T=obj.py.T)
@@ -2858,6 +2882,11 @@ class Interp:
     def ex_For(self, s, fr):
         it = self.ev(s.iter, fr)
         segs = self.segments(it)
+        spec = self.loop_spec_for(s, fr)
+        if spec is not None and any(sg[0] != 'item' for sg in segs):
+            if len(segs) != 1:
+                raise Unsupported('loop with an invariant over a sequence of several segments')
+            return self.loop_by_invariant(s, segs[0], fr, spec)
         broke = False
         try:
             for seg in segs:
@@ -2873,6 +2902,17 @@ class Interp:
             broke = True
         if not broke:
             self.exec_block(s.orelse, fr)
+
+    def loop_spec_for(self, s, fr):
+        """the (ordinal, invariant, modifies) a contract gives for this `for` statement of the function under
+        verification itself (loops of inlined callees and of spec code never have one)"""
+        specs = self.shared.get('loop_specs')
+        if not specs or self.in_spec or getattr(fr, 'qual', None) != self.top_target:
+            return None
+        return specs.get((s.lineno, s.col_offset))
+
+    def loop_by_invariant(self, s, seg, fr, spec):
+        raise Unsupported('loop invariants need pyvc.verify')
 
     def ex_While(self, s, fr):
         raise Unsupported('while loop')
@@ -3338,7 +3378,10 @@ class Interp:
         ft, exits = [], []
         for p in paths:
             kind = p['out'][0]
-            if p['changed']:
+            # an iteration that falls through to the next one must leave the pre-existing heap alone (else an
+            # invariant would be needed); the iteration that *leaves* the loop (break/return/raise) may have
+            # effects: they happen once, in the state the loop started in
+            if p['changed'] and kind in ('ok', 'continue'):
                 raise Unsupported('loop body over a symbolic sequence has heap effects ('
                                   + ','.join(p['changed']) + '): needs a loop invariant')
             (ft if kind in ('ok', 'continue') else exits).append(p)
